@@ -1,0 +1,237 @@
+//go:build verif
+
+// Ghost lemma functions for /verif/govc (DESIGN.md 6.A, C21). They are
+// compiled only with the build tag `verif`, are never called, and exist so
+// that the round trip "construct, Pack, decode" can be stated as the
+// postcondition of a function and proved from the contracts of Pack,
+// Header.Unpack, NewPacketWithHeader and Unpack. lemmaDecode mirrors the
+// body of ReadPacket after the Read call (ReadPacket's own slicing and
+// dispatch are checked by its C22 site assertions).
+
+package packets1
+
+import (
+	pkts "github.com/energomonitor/bisquitt/packets"
+)
+
+func lemmaDecode(b []byte) pkts.Packet {
+	var h pkts.Header
+	if err := h.Unpack(b); err != nil {
+		panic("lemma: header rejected")
+	}
+	pkt, err := NewPacketWithHeader(h)
+	if err != nil {
+		panic("lemma: unknown packet type")
+	}
+	if err := pkt.Unpack(b[h.HeaderLength():]); err != nil {
+		panic("lemma: body rejected")
+	}
+	return pkt
+}
+
+func lemmaRoundtripAdvertise(gatewayID uint8, duration uint16) (p, q *Advertise, b []byte) {
+	p = NewAdvertise(gatewayID, duration)
+	b, _ = p.Pack()
+	q = lemmaDecode(b).(*Advertise)
+	return
+}
+
+func lemmaRoundtripSearchGw(radius uint8) (p, q *SearchGw, b []byte) {
+	p = NewSearchGw(radius)
+	b, _ = p.Pack()
+	q = lemmaDecode(b).(*SearchGw)
+	return
+}
+
+func lemmaRoundtripGwInfo(gatewayID uint8, addr []byte) (p, q *GwInfo, b []byte) {
+	p = NewGwInfo(gatewayID, addr)
+	b, _ = p.Pack()
+	q = lemmaDecode(b).(*GwInfo)
+	return
+}
+
+func lemmaRoundtripConnect(duration uint16, clientID []byte, will bool, clean bool) (p, q *Connect, b []byte) {
+	p = NewConnect(duration, clientID, will, clean)
+	b, _ = p.Pack()
+	q = lemmaDecode(b).(*Connect)
+	return
+}
+
+func lemmaRoundtripConnack(rc ReturnCode) (p, q *Connack, b []byte) {
+	p = NewConnack(rc)
+	b, _ = p.Pack()
+	q = lemmaDecode(b).(*Connack)
+	return
+}
+
+func lemmaRoundtripWillTopicReq() (p, q *WillTopicReq, b []byte) {
+	p = NewWillTopicReq()
+	b, _ = p.Pack()
+	q = lemmaDecode(b).(*WillTopicReq)
+	return
+}
+
+func lemmaRoundtripWillMsgReq() (p, q *WillMsgReq, b []byte) {
+	p = NewWillMsgReq()
+	b, _ = p.Pack()
+	q = lemmaDecode(b).(*WillMsgReq)
+	return
+}
+
+func lemmaRoundtripWillMsg(msg []byte) (p, q *WillMsg, b []byte) {
+	p = NewWillMsg(msg)
+	b, _ = p.Pack()
+	q = lemmaDecode(b).(*WillMsg)
+	return
+}
+
+func lemmaRoundtripRegister(topicID uint16, name string, msgID uint16) (p, q *Register, b []byte) {
+	p = NewRegister(topicID, name)
+	p.SetMessageID(msgID)
+	b, _ = p.Pack()
+	q = lemmaDecode(b).(*Register)
+	return
+}
+
+func lemmaRoundtripRegack(topicID uint16, rc ReturnCode, msgID uint16) (p, q *Regack, b []byte) {
+	p = NewRegack(topicID, rc)
+	p.SetMessageID(msgID)
+	b, _ = p.Pack()
+	q = lemmaDecode(b).(*Regack)
+	return
+}
+
+func lemmaRoundtripPublish(topicID uint16, data []byte, dup bool, qos uint8, retain bool, tit uint8, msgID uint16) (p, q *Publish, b []byte) {
+	p = NewPublish(topicID, data, dup, qos, retain, tit)
+	p.SetMessageID(msgID)
+	b, _ = p.Pack()
+	q = lemmaDecode(b).(*Publish)
+	return
+}
+
+func lemmaRoundtripPuback(topicID uint16, rc ReturnCode, msgID uint16) (p, q *Puback, b []byte) {
+	p = NewPuback(topicID, rc)
+	p.SetMessageID(msgID)
+	b, _ = p.Pack()
+	q = lemmaDecode(b).(*Puback)
+	return
+}
+
+func lemmaRoundtripPubcomp(msgID uint16) (p, q *Pubcomp, b []byte) {
+	p = NewPubcomp()
+	p.SetMessageID(msgID)
+	b, _ = p.Pack()
+	q = lemmaDecode(b).(*Pubcomp)
+	return
+}
+
+func lemmaRoundtripPubrec(msgID uint16) (p, q *Pubrec, b []byte) {
+	p = NewPubrec()
+	p.SetMessageID(msgID)
+	b, _ = p.Pack()
+	q = lemmaDecode(b).(*Pubrec)
+	return
+}
+
+func lemmaRoundtripPubrel(msgID uint16) (p, q *Pubrel, b []byte) {
+	p = NewPubrel()
+	p.SetMessageID(msgID)
+	b, _ = p.Pack()
+	q = lemmaDecode(b).(*Pubrel)
+	return
+}
+
+func lemmaRoundtripSuback(topicID uint16, rc ReturnCode, qos uint8, msgID uint16) (p, q *Suback, b []byte) {
+	p = NewSuback(topicID, rc, qos)
+	p.SetMessageID(msgID)
+	b, _ = p.Pack()
+	q = lemmaDecode(b).(*Suback)
+	return
+}
+
+func lemmaRoundtripUnsuback(msgID uint16) (p, q *Unsuback, b []byte) {
+	p = NewUnsuback()
+	p.SetMessageID(msgID)
+	b, _ = p.Pack()
+	q = lemmaDecode(b).(*Unsuback)
+	return
+}
+
+func lemmaRoundtripPingreq(clientID []byte) (p, q *Pingreq, b []byte) {
+	p = NewPingreq(clientID)
+	b, _ = p.Pack()
+	q = lemmaDecode(b).(*Pingreq)
+	return
+}
+
+func lemmaRoundtripPingresp() (p, q *Pingresp, b []byte) {
+	p = NewPingresp()
+	b, _ = p.Pack()
+	q = lemmaDecode(b).(*Pingresp)
+	return
+}
+
+func lemmaRoundtripWillTopicResp(rc ReturnCode) (p, q *WillTopicResp, b []byte) {
+	p = NewWillTopicResp(rc)
+	b, _ = p.Pack()
+	q = lemmaDecode(b).(*WillTopicResp)
+	return
+}
+
+func lemmaRoundtripWillMsgUpd(msg []byte) (p, q *WillMsgUpd, b []byte) {
+	p = NewWillMsgUpd(msg)
+	b, _ = p.Pack()
+	q = lemmaDecode(b).(*WillMsgUpd)
+	return
+}
+
+func lemmaRoundtripWillMsgResp(rc ReturnCode) (p, q *WillMsgResp, b []byte) {
+	p = NewWillMsgResp(rc)
+	b, _ = p.Pack()
+	q = lemmaDecode(b).(*WillMsgResp)
+	return
+}
+
+func lemmaRoundtripAuth(user string, password []byte) (p, q *Auth, b []byte) {
+	p = NewAuthPlain(user, password)
+	b, _ = p.Pack()
+	q = lemmaDecode(b).(*Auth)
+	return
+}
+
+func lemmaRoundtripDisconnect(duration uint16) (p, q *Disconnect, b []byte) {
+	p = NewDisconnect(duration)
+	b, _ = p.Pack()
+	q = lemmaDecode(b).(*Disconnect)
+	return
+}
+
+func lemmaRoundtripWillTopic(topic string, qos uint8, retain bool) (p, q *WillTopic, b []byte) {
+	p = NewWillTopic(topic, qos, retain)
+	b, _ = p.Pack()
+	q = lemmaDecode(b).(*WillTopic)
+	return
+}
+
+func lemmaRoundtripWillTopicUpd(topic string, qos uint8, retain bool) (p, q *WillTopicUpd, b []byte) {
+	p = NewWillTopicUpd(topic, qos, retain)
+	b, _ = p.Pack()
+	q = lemmaDecode(b).(*WillTopicUpd)
+	return
+}
+
+func lemmaRoundtripSubscribe(name string, topicID uint16, dup bool, qos uint8, tit uint8, msgID uint16) (p, q *Subscribe, b []byte) {
+	p = NewSubscribe(name, topicID, dup, qos, tit)
+	p.SetMessageID(msgID)
+	b, _ = p.Pack()
+	q = lemmaDecode(b).(*Subscribe)
+	return
+}
+
+func lemmaRoundtripUnsubscribe(name string, topicID uint16, tit uint8, msgID uint16) (p, q *Unsubscribe, b []byte) {
+	p = NewUnsubscribe(name, topicID, tit)
+	p.SetMessageID(msgID)
+	b, _ = p.Pack()
+	q = lemmaDecode(b).(*Unsubscribe)
+	return
+}
